@@ -68,6 +68,9 @@ def do_call(fr, n):
         if isinstance(r, tuple) and r[0] == 'ext':
             args = args_of(fr, n)
             kw, extra = kwargs_of(fr, n)
+            q = ctx.foreign(r[1])
+            if q is not None:
+                return call_function(fr, q, args, kw, extra, n)
             return external(fr, r[1], args, kw, extra, n)
         return builtin(fr, name, n)
     # ---- attribute calls
@@ -168,9 +171,24 @@ def bind_args(fn, args, kw, extra, skip_self=False):
     return bound, problems
 
 
+def canonical_call(fr, fn, bound, extra):
+    """uninterpreted application of a package function in bound-parameter form (defaults made explicit), so that
+    positional / keyword / omitted-default call styles have one normal form"""
+    kw = dict(bound)
+    for p in fn.params + fn.kwonly:
+        if p not in kw and p in fn.defaults:
+            d = fn.defaults[p]
+            kw[p] = T.Cdec(d.value) if isinstance(d, ast.Constant) else fr.ex(d) if isinstance(d, (ast.Tuple, ast.List, ast.Dict, ast.UnaryOp)) else ('default', ast.unparse(d))
+    if fn.kwarg and kw.get(fn.kwarg) == ('dict', ()):
+        kw.pop(fn.kwarg)
+    if extra:
+        kw['**'] = ('tuple', tuple(extra))
+    return T.call(fn.name, (), kw)
+
+
 def call_function(fr, qual, args, kw, extra, n):
     ctx = fr.ctx
-    fn = ctx.model.funcs[qual]
+    fn = ctx.lookup_func(qual)
     short = qual.rsplit('.', 1)[1]
     ov = ctx.overrides.get(qual) or ctx.overrides.get(short)
     bound, problems = bind_args(fn, args, kw, extra)
@@ -180,8 +198,10 @@ def call_function(fr, qual, args, kw, extra, n):
         r = ov(fr, bound, n)
         if r is not None:
             return r
-    if not ctx.inline or fr.depth >= ctx.max_depth or qual in ctx.no_inline or short in ctx.no_inline:
-        return T.call(short, args, kw)
+    if not ctx.inline or fr.depth >= ctx.max_depth or qual in ctx.no_inline or short in ctx.no_inline or ctx.is_foreign(qual):
+        res = canonical_call(fr, fn, bound, extra)
+        ev['result'] = res
+        return res
     sub = SE.Frame(ctx, fn, bound, depth=fr.depth + 1, pc=fr.pc, loops=fr.loops)
     sub.perm = list(fr.perm)
     ctx.inlined.add(qual)
